@@ -189,18 +189,6 @@ func (d *rdriver) rangeOp(o *Op) *Op {
 	return o
 }
 
-// wouldAlias: the same lock-owner already has lock state on this file
-// under another open-owner of this client (see the scenario
-// two-lofs-same-owner-probe; the history is exercised there).
-func wouldAlias(c *clientC, oc *openC, lo string) bool {
-	for _, l := range c.locks {
-		if l.lo == lo && string(l.fh) == string(oc.fh) && l.oo != oc.oo {
-			return true
-		}
-	}
-	return false
-}
-
 func (d *rdriver) compound(c *clientC) []*Op {
 	leaves := len(d.s.e.leaves)
 	switch r := d.pick(100); {
@@ -227,18 +215,10 @@ func (d *rdriver) compound(c *clientC) []*Op {
 		case 0:
 			ops = append(ops, read(curSid))
 		case 1:
-			// (the file is not known yet: avoid any lock-owner that has
-			// lock state under another open-owner, see wouldAlias)
+			// (the lock-owner may already have lock state on the file
+			// through the other open-owner: that lock state is shared)
 			lo := rLOs[d.pick(2)]
-			aliased := false
-			for _, l := range c.locks {
-				if l.lo == lo && l.oo != o.OO {
-					aliased = true
-				}
-			}
-			if !aliased {
-				ops = append(ops, d.rangeOp(&Op{Name: "LOCK", NewO: true, Sid2: curSid, LO: lo}), read(curSid))
-			}
+			ops = append(ops, d.rangeOp(&Op{Name: "LOCK", NewO: true, Sid2: curSid, LO: lo}), read(curSid))
 		case 2:
 			ops = append(ops, write(curSid, "cc"), closeOp(curSid))
 		case 3:
@@ -269,8 +249,16 @@ func (d *rdriver) compound(c *clientC) []*Op {
 	case r < 52: // lock with a new lock-owner
 		oc := d.someOpen(c)
 		lo := rLOs[d.pick(2)]
-		if wouldAlias(c, oc, lo) {
-			return append(d.fhFor(oc.fh, true), d.rangeOp(&Op{Name: "LOCKT", LO: lo}))
+		if d.chance(35) {
+			// A lock-owner that already has lock state on the file through
+			// another open-owner of this client.
+			for _, l := range sortedLocks(c) {
+				for _, o := range sortedOpens(c) {
+					if o.oo != l.oo && l.fh != nil && string(o.fh) == string(l.fh) {
+						oc, lo = o, l.lo
+					}
+				}
+			}
 		}
 		// Only mutations that cannot denote another open of this client
 		// (state ID "other" values are small per-client counters).
